@@ -2,8 +2,14 @@ import PyamgV.Driver.Util
 import PyamgV.Driver.C10
 import PyamgV.Model.ExtC10cComplex
 import PyamgV.Model.ExtC10dEnergy
+import PyamgV.Driver.ExtE48
+import PyamgV.Proofs.ExtC10dEnergy
+import PyamgV.Model.ExtC10dHierarchy
 /-! Driver ops of extension task E53 (property C10; op names prefixed `ext_c10d_`):
 
+* `ext_c10d_hier root none|jacobi|cg|cgnr|gmres ...` -- the level loop of `smoothed_aggregation_solver` / `rootnode_solver`
+  (`C10dM.hierarchy` on `Rat` with 64-bit square roots); one reply block per level (`T#Bc#P#Anext#exact#<energy report>`),
+  joined by `~`, the error (if any) last;
 * `ext_c10d_energy r|c cg|cgnr|gmres ...` -- the whole of `energy_prolongation_smoother` (`C10dM.energyFullCG` /
   `energyFullGmres`): pattern selection with `degree` / `prefilter` / root rows, `filter_operator` pass, Krylov
   loop, `postfilter` and second pass.  Reply `pat1#pat2#P#P1#flags#checks#diag1#diag2` or `error:<what>`. -/
@@ -31,6 +37,23 @@ def gmDiag (showA : Array α → String) (o : Option (EnergyGmresOut α)) : Stri
       (if c.lucky then "lucky" else "generic") ++ "," ++ toString c.ups.length ++ "@" ++
       showA c.normrs.toArray ++ "@" ++ showA c.hns.toArray ++ "@" ++ showA c.diag.toArray
 
+/-- the clause `C10d.Fitted` of `energyFullCG_property` / `energyFullGmres_property`, decided on a result -/
+def fittedB (n m nd rpb cpb : Nat) (pat : Pat) (cpts : Array Nat) (B Bf P : Mat α) : Bool :=
+  let PB := Mat.mul P B
+  decide (P.rows = n) && decide (P.cols = m) &&
+  (List.range n).all fun i =>
+    match PyamgV.C10c.rootIdx cpts i with
+    | none =>
+      ((pat.getD (i / rpb) #[]).isEmpty || (List.range nd).all fun c => PB.get i c == Bf.get i c) &&
+      ((List.range m).all fun j => (pat.getD (i / rpb) #[]).contains (j / cpb) || P.get i j == 0)
+    | some k => (List.range m).all fun j => P.get i j == (if k = j then 1 else 0)
+
+/-- hypotheses (`hyps`) and conclusion (`prop`) of the property theorems, decided on the call and on the result -/
+def chkFull {ι : Type} (n m nd rpb cpb : Nat) (A T B Bf : Mat α) (cpts : Array Nat) (o : Out α ι) : String :=
+  (if PyamgV.C10c.hypsOK n m nd rpb cpb o.pat1 A T B && PyamgV.C10c.patInB m cpb o.pat then "hyps" else "NOHYPS") ++ "," ++
+  (if (if !o.fitted && !o.second then PyamgV.Drv.ExtE48.relB n m nd rpb cpb o.pat cpts B T o.P
+       else fittedB n m nd rpb cpb o.pat cpts B Bf o.P) then "prop" else "NOPROP")
+
 def report {ι : Type} (showM : Mat α → String) (diag : ι → String) (chk : Out α ι → String)
     (r : Except String (Out α ι)) : String :=
   match r with
@@ -42,7 +65,67 @@ def report {ι : Type} (showM : Mat α → String) (diag : ι → String) (chk :
 
 end generic
 
+/-! ### hierarchies -/
+
+/-- one level `nFine:nCol:cp:ci:nA:ap:aj:ax:cpts:w` -/
+def parseLevel (s : String) : LvlIn Rat :=
+  match s.splitOn ":" with
+  | [nf, nc, cp, ci, nA, ap, aj, ax, cpts, w] =>
+    { nFine := nat nf, nCol := nat nc, cp := parseNats cp, ci := parseNats ci,
+      atilde := PyamgV.C19.rowsOf (nat nA) (parseNats ap) (parseNats aj) (parseRats ax), cpts := parseNats cpts,
+      w := parseRat w }
+  | _ => { nFine := 0, nCol := 0, cp := #[], ci := #[], atilde := [], cpts := #[], w := 0 }
+
+/-- rounding to the nearest multiple of `2^-bits` (`bits = 0`: exact) -/
+def rndQ (bits : Nat) (q : Rat) : Rat :=
+  if bits = 0 then q else
+    let s : Rat := ((2 ^ bits : Nat) : Rat)
+    ((q * s + 1 / 2).floor : Rat) / s
+
+def showLevel {δ : Type} (diag : δ → String) (o : LvlOut Rat δ) : String :=
+  showMatR o.T ++ "#" ++ showMatR o.Bc ++ "#" ++ showMatR o.P ++ "#" ++ showMatR o.Anext ++ "#" ++
+    (if o.st.ok then "exact" else "inexact") ++ "#" ++ diag o.diag
+
+/-- run `hierarchy` on the longest prefix of the levels on which it returns -/
+def runHier {δ : Type} (diag : δ → String) (run : List (LvlIn Rat) → Except String (List (LvlOut Rat δ)))
+    (ls : List (LvlIn Rat)) : String :=
+  let rec go (k : Nat) (fuel : Nat) (err : String) : String :=
+    match fuel with
+    | 0 => "error:" ++ err
+    | fuel + 1 =>
+      match run (ls.take k) with
+      | .ok outs => String.intercalate "~" (outs.map (showLevel diag)) ++ (if err = "" then "" else "~error:" ++ err)
+      | .error e => if k = 0 then "error:" ++ e else go (k - 1) fuel (if err = "" then e else err)
+  go ls.length (ls.length + 1) ""
+
+def fullDiag {ι : Type} (showM : Mat Rat → String) (diag : ι → String) (n m nd rpb cpb : Nat) (A T B Bf : Mat Rat)
+    (cpts : Array Nat) (o : Out Rat ι) : String :=
+  report showM diag (chkFull n m nd rpb cpb A T B Bf cpts) (.ok o)
+
 def handle : List String → Option String
+  | ["ext_c10d_hier", root, kry, wt, degree, preT, preK, postT, postK, maxiter, k1, n, nd, a, b, levels, tol, tolfit, bits] =>
+    let o : Opts := { degree := nat degree, pre := ⟨optRat preT, optNat preK⟩, post := ⟨optRat postT, optNat postK⟩,
+                      root := root == "1", maxiter := nat maxiter }
+    let A := matR n n a
+    let B := matR n nd b
+    let ls := if levels = "-" then [] else (levels.splitOn "~").map parseLevel
+    let rt := root == "1"
+    let tl := parseRat tol
+    let absQ : Rat → Rat := fun x => if x < 0 then -x else x
+    if kry == "none" then
+      some <| runHier (fun _ => "-") (fun l => hierarchy ratOpsD id (rndQ (nat bits)) rt (parseRat tolfit) smoNone l (nat k1) A B) ls
+    else if kry == "jacobi" then
+      -- `wt` = weighting code (2 = Richardson), `degree` = number of sweeps
+      some <| runHier (fun _ => "-") (fun l => hierarchy ratOpsD id (rndQ (nat bits)) rt (parseRat tolfit)
+        (smoJacobi absQ (nat wt) (nat degree)) l (nat k1) A B) ls
+    else if kry == "gmres" then
+      some <| runHier (fun (d : Out Rat _) => report showMatR (gmDiag showRats) (fun _ => "-") (.ok d))
+        (fun l => hierarchy ratOpsD id (rndQ (nat bits)) rt (parseRat tolfit)
+          (smoEnergyGmres PyamgV.C19.nsqQ absQ ratScal (nat wt) o tl tl) l (nat k1) A B) ls
+    else
+      some <| runHier (fun (d : Out Rat _) => report showMatR (cgDiag showRats) (fun _ => "-") (.ok d))
+        (fun l => hierarchy ratOpsD id (rndQ (nat bits)) rt (parseRat tolfit)
+          (smoEnergyCG PyamgV.C19.nsqQ absQ id (fun x y => decide (x < y)) (kry == "cgnr") (nat wt) o tl tl) l (nat k1) A B) ls
   | ["ext_c10d_energy", "r", kry, wt, bsA, degree, preT, preK, postT, postK, root, maxiter, n, m, nd, rpb, cpb, nA,
       ap, aj, ax, tpat, a, aux, t, b, bf, cpts, tol, tol2] =>
     let o : Opts := { degree := nat degree, pre := ⟨optRat preT, optNat preK⟩, post := ⟨optRat postT, optNat postK⟩,
@@ -53,11 +136,11 @@ def handle : List String → Option String
     let B := matR m nd b
     let Bf := matR n nd bf
     if kry == "gmres" then
-      some <| report showMatR (gmDiag showRats) (fun _ => "-") <|
+      some <| report showMatR (gmDiag showRats) (chkFull (nat n) (nat m) (nat nd) (nat rpb) (nat cpb) A T B Bf (parseNats cpts)) <|
         energyFullGmres PyamgV.C19.nsqQ ratScal (nat wt) (nat bsA) (parseRats aux) o (nat n) (nat m) (nat nd) (nat rpb) (nat cpb)
           atilde (parsePat tpat) A T B Bf (parseNats cpts) (parseRat tol) (parseRat tol2)
     else
-      some <| report showMatR (cgDiag showRats) (fun _ => "-") <|
+      some <| report showMatR (cgDiag showRats) (chkFull (nat n) (nat m) (nat nd) (nat rpb) (nat cpb) A T B Bf (parseNats cpts)) <|
         energyFullCG PyamgV.C19.nsqQ id (fun x y => decide (x < y)) (kry == "cgnr") (nat wt) (nat bsA) (parseRats aux) o
           (nat n) (nat m) (nat nd) (nat rpb) (nat cpb) atilde (parsePat tpat) A T B Bf (parseNats cpts) (parseRat tol) (parseRat tol2)
   | ["ext_c10d_energy", "c", kry, wt, bsA, degree, preT, preK, postT, postK, root, maxiter, n, m, nd, rpb, cpb, nA,
@@ -70,11 +153,11 @@ def handle : List String → Option String
     let B := matC m nd b
     let Bf := matC n nd bf
     if kry == "gmres" then
-      some <| report showMatC (gmDiag showCRats) (fun _ => "-") <|
+      some <| report showMatC (gmDiag showCRats) (chkFull (nat n) (nat m) (nat nd) (nat rpb) (nat cpb) A T B Bf (parseNats cpts)) <|
         energyFullGmres CRat.normSq cratScal (nat wt) (nat bsA) (parseCRats aux) o (nat n) (nat m) (nat nd) (nat rpb) (nat cpb)
           atilde (parsePat tpat) A T B Bf (parseNats cpts) (parseCRat tol) (parseCRat tol2)
     else
-      some <| report showMatC (cgDiag showCRats) (fun _ => "-") <|
+      some <| report showMatC (cgDiag showCRats) (chkFull (nat n) (nat m) (nat nd) (nat rpb) (nat cpb) A T B Bf (parseNats cpts)) <|
         energyFullCG CRat.normSq CRat.conj cratLt (kry == "cgnr") (nat wt) (nat bsA) (parseCRats aux) o
           (nat n) (nat m) (nat nd) (nat rpb) (nat cpb) atilde (parsePat tpat) A T B Bf (parseNats cpts) (parseCRat tol) (parseCRat tol2)
   | _ => none
